@@ -17,6 +17,7 @@ import (
 
 	"verifmc/mg"
 	"verifmc/rt"
+	"verifmc/statescan"
 )
 
 func init() {
@@ -742,6 +743,7 @@ func c18(r *rt.Run) {
 		"scheduling points: every operation of the sync shim (RWMutex, Pool) that replaces package sync in factstore, parse and ast by build overlay, plus explicit steps inside a stepped base store that is correct only under mutual exclusion",
 		"a cooperative scheduler cannot observe unsynchronised accesses: data races are covered by a separate free-running `go test -race` pass over the same operations (sampling; listed separately, never counted into the exhaustive numbers)",
 		"linearizability is decided by brute force over all orders consistent with real-time precedence against a set model",
+		"shared library state is inventoried on every run (verifmc/statescan: writes to package-level variables after initialisation); the only such state is the default timezone, which is behind the shim's mutex; a new write site makes the run non-exhaustive (reported under caps_hit)",
 	}
 	if r.Replay != "" {
 		_, w := rt.ReadReplay(r.Replay)
@@ -775,6 +777,29 @@ func c18(r *rt.Run) {
 	rt.RunSharded(r, len(cases), []string{"C18", "worker", r.Tier}, 600*time.Second, 8000000, func(idx int, label, how string) {
 		r.Violate("scenario-did-not-return", label+": "+how, map[string]any{"case": label})
 	})
+	// inventory of shared library state: every write to a package-level variable after initialisation in the
+	// repository's non-test code. The interleaving search owns the state behind package sync (the mutex-guarded
+	// default timezone, the lexer/parser pools); anything else written at package level is state the scheduler does
+	// not see, and the run is then not exhaustive for the second half of the property.
+	owned := map[string]bool{"ast.defaultTimezone": true}
+	var unowned []string
+	sites := statescan.Scan(repoDir())
+	for _, s := range sites {
+		ok := false
+		for o := range owned {
+			if strings.Contains(s, "package-level "+o+" ") {
+				ok = true
+			}
+		}
+		if !ok {
+			unowned = append(unowned, s)
+		}
+	}
+	r.Extra["shared_state_write_sites"] = sites
+	if len(unowned) > 0 {
+		r.Extra["shared_state_not_owned_by_the_scheduler"] = unowned
+		r.Capped(fmt.Sprintf("%d write(s) to package-level state outside the sync shim's view (first: %s): interference through it is not explored exhaustively, only sampled by the race pass", len(unowned), unowned[0]))
+	}
 	// auxiliary free-running race pass (not model checking)
 	iters := "200"
 	if r.Thorough() {
